@@ -9,7 +9,7 @@ func (e *BinaryOpExpr) Check(ctx *CheckCtx) error {
 	}
 	e.tryRewriteExpr(ctx)
 	switch e.Op {
-	case And, Or:
+	case And, Or, KWAnd, KWOr:
 		return e.checkWithAndOr(ctx)
 	case Not:
 		return NewSyntaxError(e.GetPos(), "Invalid operator !")
